@@ -173,12 +173,15 @@ package types
 // nil-returning path is covered by the governance submission dry-run, DESIGN section 8 C15 tier ii)
 // verif:func (ClientState).Initialize
 // the installed consensus state is the one of the client's own header (its root is what pruning looks the header up by)
-//@ ensures [consensus-state-of-the-header] result == nil ==> istype(state, *ConsensusState) && bytes.Equal(as(state, *ConsensusState).Root, cs.Header.ToEthHeader().Root.Bytes()) && as(state, *ConsensusState).Height == cs.Header.Height
+//@ ensures [consensus-state-of-the-header] result == nil ==> istype(state, *ConsensusState) && bytes.Equal(as(state, *ConsensusState).Root, cs.Header.ToEthHeader().Root.Bytes()) && as(state, *ConsensusState).Height == cs.Header.Height && as(state, *ConsensusState).Timestamp == cs.Header.Time
 //@ nopanic dryrun
 //@ modifies store
 
 // verif:func (ClientState).UpgradeState
+// a block already stored is never filed again under another revision number: the upgraded header carries the revision
+// number of the client that is in the store
+//@ ensures [same-revision-as-the-stored-client] result == nil && kvhas(store, host.ClientStateKey()) && errof(clienttypes.UnmarshalClientState(cdc, kvget(store, host.ClientStateKey()))) == nil ==> first(clienttypes.UnmarshalClientState(cdc, kvget(old(store), host.ClientStateKey()))).GetLatestHeight().GetRevisionNumber() == cs.Header.Height.RevisionNumber
 // the installed consensus state is the one of the client's own header (its root is what pruning looks the header up by)
-//@ ensures [consensus-state-of-the-header] result == nil ==> istype(state, *ConsensusState) && bytes.Equal(as(state, *ConsensusState).Root, cs.Header.ToEthHeader().Root.Bytes()) && as(state, *ConsensusState).Height == cs.Header.Height
+//@ ensures [consensus-state-of-the-header] result == nil ==> istype(state, *ConsensusState) && bytes.Equal(as(state, *ConsensusState).Root, cs.Header.ToEthHeader().Root.Bytes()) && as(state, *ConsensusState).Height == cs.Header.Height && as(state, *ConsensusState).Timestamp == cs.Header.Time
 //@ nopanic dryrun
 //@ modifies store
